@@ -40,15 +40,24 @@ def case_strategy(draw):
     else:
         base = draw(xc.ref_tgt_case(nref=(3, 20), ntgt=(1, 20), nres_max=2))
     rng = np.random.default_rng(draw(gen.SEEDS))
-    rk = draw(st.sampled_from(["general", "general", "cube", "identity"]))
+    rk = draw(st.sampled_from(["general", "general", "cube", "identity", "tiny"]))
     if rk == "general":
         R = gen.random_rotation(rng)
+    elif rk == "tiny":
+        # a finite-difference step: micro-radian rotation (and, below, a translation of 1e-8..1e-5 nm)
+        ax = rng.normal(size=3)
+        ax /= np.linalg.norm(ax)
+        ang = 10.0 ** rng.uniform(-7, -4.5)
+        K = np.array([[0, -ax[2], ax[1]], [ax[2], 0, -ax[0]], [-ax[1], ax[0], 0]])
+        R = np.eye(3) + np.sin(ang) * K + (1 - np.cos(ang)) * (K @ K)
     elif rk == "cube":
         R = gen.CUBE_ROTATIONS[draw(st.integers(0, 23))]
     else:
         R = np.eye(3)
     tk = draw(st.sampled_from(["float", "integer", "zero"]))
-    if base["geom"] == "near-collinear":
+    if rk == "tiny":
+        t = rng.uniform(-1, 1, 3) * 10.0 ** rng.uniform(-8, -5) if tk != "zero" else np.zeros(3)
+    elif base["geom"] == "near-collinear":
         t = rng.uniform(-3, 3, 3) if tk != "zero" else np.zeros(3)
     elif tk == "float":
         t = rng.uniform(-50, 50, 3)
